@@ -134,6 +134,25 @@ def start_failure_scripts(rng, n):
     return out
 
 
+def stop_while_closing_scripts(rng, n):
+    """a stop condition reaching a step (with and without a cancel handler, waiting at each of its blocking points) in the
+    same instant in which the step is closed for another reason"""
+    out = []
+    stages = [[], ['deploy'], ['deploy', 'enabling'], ['deploy', 'enabling', 'starting']]
+    for k in range(n):
+        pre = stages[k % len(stages)]
+        handler = (k // len(stages)) % 2 == 0
+        acts = [{'op': 'provide', 'stage': st, 'lane': 0, **({'val': True} if st == 'enabling' else {})} for st in pre]
+        base = 15
+        acts.append({'op': 'sleep', 'ms': base, 'lane': 1})
+        acts.append({'op': rng.choice(['close', 'forceclose']), 'id': 'c1', 'lane': 1})
+        acts.append({'op': 'sleep', 'ms': base + rng.choice([0, 0, 1]), 'lane': 2})
+        acts.append({'op': 'provide', 'stage': 'cancelled', 'val': True, 'lane': 2})
+        script = {'a': {'deploy': {'delay_ms': rng.choice([0, 30])}, 'exec': {'out': 'success', 'wait_gate': 'res', 'on_cancel': rng.choice(['', 'ignore'])}}}
+        out.append(({'pstep': 'work' if handler else 'nowork', 'src': 'a', 'script': script, 'actions': acts, 'overlap': True, 'timeout_ms': 20000}, handler))
+    return out
+
+
 def run_step(binary, sc, work, name):
     d = os.path.join(work, name)
     os.makedirs(d, exist_ok=True)
@@ -228,7 +247,7 @@ def run(ctx):
     rng = random.Random(ctx.seed * 104729 + 12)
     binary = ctx.binary()
     n = 40 if ctx.quick else 600
-    scs = [gen_script(rng, overlap=(i % 3 == 2)) for i in range(n)] + overlapped_close_scripts(rng, 8 if ctx.quick else 80) + close_during_completion_scripts(rng, 12 if ctx.quick else 90) + start_failure_scripts(rng, 4 if ctx.quick else 24)
+    scs = [gen_script(rng, overlap=(i % 3 == 2)) for i in range(n)] + overlapped_close_scripts(rng, 8 if ctx.quick else 80) + close_during_completion_scripts(rng, 12 if ctx.quick else 90) + start_failure_scripts(rng, 4 if ctx.quick else 24) + stop_while_closing_scripts(rng, 8 if ctx.quick else 48)
     with cf.ThreadPoolExecutor(max_workers=max(2, vlib.NCPU - 2)) as ex:
         results = list(ex.map(lambda a: run_step(binary, a[1][0], ctx.work, 'st%04d' % a[0]), enumerate(scs)))
     cases = []
